@@ -362,8 +362,45 @@ def _cfg_has(eng, e, st, args, kw):
     return ZV(TBool, CONFIG_OPTS.has(obj.fields['opts'].term, _cfg_key(eng, args[1:])))
 
 
+SECTION_CLS = 'configparser:SectionProxy'
+fs_config = z3.Function('fs_config', T.Str, CONFIG_OPTS.sort())     # options stored in the INI file at a path
+
+
+def _cfg_new(eng, e, st, args, kw):
+    empty = CONFIG_OPTS.mk(z3.K(CONFIG_KEY.sort(), z3.BoolVal(False)), z3.Const('cfg_empty_values', z3.ArraySort(CONFIG_KEY.sort(), T.Str)))
+    return PObj(CONFIG_CLS, {'opts': ZV(CONFIG_OPTS, empty)})
+
+
+def _cfg_read_file(eng, e, st, args, kw):
+    """read_file(file): the parser now holds the options of that file, or configparser.Error"""
+    obj, f = args[0], args[1]
+    _use(eng, 'ConfigParser.read_file(f) loads fs_config(path of f) or raises configparser.Error')
+    k = st.choose(2)
+    if k == 1:
+        raise RaisePath(st, 'configparser.Error')
+    new = ZV(CONFIG_OPTS, fs_config(box(f.fields['name'], TStr)))
+    eng.assign(e.func.value, obj.with_field('opts', new), st)
+    return PNone()
+
+
+def _cfg_getitem(eng, node, st, obj, key):
+    return PObj(SECTION_CLS, {'cfg': obj, 'section': key})
+
+
+def _section_getitem(eng, node, st, obj, key):
+    opts = obj.fields['cfg'].fields['opts']
+    k = CONFIG_KEY.mk(box(obj.fields['section'], TStr), box(key, TStr))
+    eng.safety(st, CONFIG_OPTS.has(opts.term, k), 'config_option_present', node)
+    return ZV(TStr, CONFIG_OPTS.get(opts.term, k))
+
+
 def install_config(eng):
     b = eng.builtins
+    b['configparser.ConfigParser'] = _cfg_new
+    b[CONFIG_CLS + '.read_file'] = _cfg_read_file
+    b[CONFIG_CLS + '.add_section'] = lambda eng, e, st, args, kw: PNone()
+    b[CONFIG_CLS + '.__getitem__'] = _cfg_getitem
+    b[SECTION_CLS + '.__getitem__'] = _section_getitem
     b[CONFIG_CLS + '.set'] = _cfg_set
     b[CONFIG_CLS + '.get'] = _cfg_get
     b[CONFIG_CLS + '.getfloat'] = _cfg_getfloat
@@ -391,6 +428,8 @@ def _open(eng, e, st, args, kw):
 
 
 fs_lines = z3.Function('fs_lines', T.Str, TList(TStr).sort())   # text lines of the file at a path (stable during a call)
+p_dirname = z3.Function('p_dirname', T.Str, T.Str)
+p_realpath = z3.Function('p_realpath', T.Str, T.Str)
 pjoin = z3.Function('pjoin', T.Str, T.Str, T.Str)              # os.path.join of two components
 s_rstrip = z3.Function('s_rstrip', T.Str, T.Str)               # str.rstrip()
 s_split_tab = z3.Function('s_split_tab', T.Str, TList(TStr).sort())   # str.split('\t')
@@ -495,6 +534,9 @@ def install_os(eng):
     b = eng.builtins
     b['open'] = _open
     b['os.path.join'] = _path_join
+    b['os.path.dirname'] = lambda eng, e, st, args, kw: ZV(TStr, p_dirname(box(args[0], TStr)))
+    b['os.path.realpath'] = lambda eng, e, st, args, kw: ZV(TStr, p_realpath(box(args[0], TStr)))
+    b['time.perf_counter'] = lambda eng, e, st, args, kw: fresh(TF, 'clock')
     b[FILE_CLS + '.seek'] = _seek
     b['method.rstrip'] = _rstrip
     b['method.split'] = _split
